@@ -4,4 +4,5 @@ import "go.uber.org/thriftrw/internal/zzsim/world/wirew"
 
 func init() {
 	Engines["C03"] = Engine{Run: wirew.RunC03}
+	Engines["C12"] = Engine{Run: wirew.RunC12}
 }
